@@ -245,7 +245,7 @@ def run_valid(out: Outcome, drv):
                           {"case": case, "observed": {"accepted": acc, "error": err}, "model": a["model_accepts"]})
 
 
-def run_creator_request(out, drv, rng, creator, cc, cells, wire_cells, bbox, start, exprs, before):
+def run_creator_request(out, drv, rng, creator, cc, cells, wire_cells, bbox, start, exprs, before, var="temp", bbox_obj=None):
     """One create_config request on a (possibly already used) creator object, judged against the Lean creator model."""
     import pandas as pd
 
@@ -254,14 +254,25 @@ def run_creator_request(out, drv, rng, creator, cc, cells, wire_cells, bbox, sta
     end = {"2020-01-01": "2020-02-01", "2020-03-10": "2020-05-01", "2020-06-01": "2020-06-20", "2020-11-20": "2021-01-10"}[start]
     days = (pd.Timestamp(end) - pd.Timestamp(start)).days
     pre, = drv.run([{"kind": "creator", "cells": wire_cells, "bbox": enc(bbox), "days": days}])
-    if pre["stats"] is None or pre["stats"]["mean"][0] == 0:
-        return       # nothing inside (the real code then starts padding the box: outside the property)
-    vc = QcVariableConfig({"variable": "temp", "bbox": [float(b) for b in bbox], "start_time": start, "end_time": end,
+    # the bbox list OBJECT is shared by all requests of the history that name the same box (a settings dict re-used by the caller)
+    shared = bbox_obj if bbox_obj is not None else [float(b) for b in bbox]
+    vc = QcVariableConfig({"variable": var, "bbox": shared, "start_time": start, "end_time": end,
                            "tests": {"gross_range_test": exprs}})
-    case = {"cells": cells, "bbox": bbox, "start": start, "end": end, "exprs": exprs, "requests_before_on_same_creator": before}
+    if pre["stats"] is None or pre["stats"]["mean"][0] == 0:
+        # nothing inside: the real code starts padding the box, which is outside the property — the request is made all
+        # the same (it is part of the history the later requests must not depend on) but not judged
+        try:
+            creator.create_config(vc)
+        except Exception:  # noqa: BLE001
+            pass
+        out.tags["creator-padded-request-not-judged"] += 1
+        return
+    case = {"variable": var, "cells": cells, "bbox": bbox, "start": start, "end": end, "exprs": exprs,
+            "requests_before_on_same_creator": before}
     try:
-        got = creator.create_config(vc)["temp"]["qartod"]["gross_range_test"]
-        stats_used = QcConfigCreator(cc)._get_stats(vc)
+        got = creator.create_config(vc)[var]["qartod"]["gross_range_test"]
+        stats_used = QcConfigCreator(cc)._get_stats(QcVariableConfig({"variable": var, "bbox": [float(b) for b in bbox], "start_time": start,
+                                                                      "end_time": end, "tests": {"gross_range_test": exprs}}))
     except Exception as e:  # noqa: BLE001
         out.record(case, True, ["creator", "error"])
         out.violation(f"C20 creator: create_config raised {type(e).__name__}: {e}", {"case": jsonable(case)})
@@ -287,7 +298,7 @@ def run_creator_request(out, drv, rng, creator, cc, cells, wire_cells, bbox, sta
         for x, y in zip(got[name], sp):
             if not close(x, fr(y)):
                 bad.append(f"{name}: got {got[name]} want {[float(fr(v)) for v in sp]}")
-    repeat = any(b["bbox"] == bbox and b["start"] == start for b in before)
+    repeat = any(b["bbox"] == bbox and b["start"] == start and b.get("variable") == var for b in before)
     out.record(case, True, ["creator", f"cells:{a['n_inside']}", f"creator-step:{len(before)}"] + (["creator-repeat-request"] if repeat else []))
     if bad:
         out.violation("C20 creator (IoosQc.creatorSpan / C20_span_days_irrelevant: spans = expressions on min/max/mean/std of the "
@@ -311,13 +322,17 @@ def run_creator(out: Outcome, drv):
             lons = [F(-70 + j) for j in range(nlon)]
             cells = [[(None if rng.random() < 0.15 else F(rng.randint(1, 40), rng.choice([1, 2, 4]))) for _ in lons] for _ in lats]
             months = pd.DatetimeIndex([f"2019-{mm:02d}-15" for mm in range(1, 13)])
-            arr = np.array([[[np.nan if c is None else float(c) for c in row] for row in cells]] * 12, dtype="float64")
-            ds = xr.Dataset({"temp": (("time", "lat", "lon"), arr)},
+            # a second variable on the same grid with many more empty cells (boxes empty for it but not for the first)
+            cells_sal = [[(None if rng.random() < 0.55 else F(rng.randint(60, 80), rng.choice([1, 2]))) for _ in lons] for _ in lats]
+            mk = lambda cs: np.array([[[np.nan if c is None else float(c) for c in row] for row in cs]] * 12, dtype="float64")  # noqa: E731
+            ds = xr.Dataset({"temp": (("time", "lat", "lon"), mk(cells)), "sal": (("time", "lat", "lon"), mk(cells_sal))},
                             coords={"time": months, "lat": [float(x) for x in lats], "lon": [float(x) for x in lons]})
             path = os.path.join(tmp, f"clim{it}.nc")
             ds.to_netcdf(path, engine="scipy")
-            cc = CreatorConfig({"datasets": [{"name": "d", "file_path": path, "variables": {"temp": "temp"}}]})
-            wire_cells = [{"lat": enc(lats[i]), "lon": enc(lons[j]), "value": enc(cells[i][j])} for i in range(nlat) for j in range(nlon)]
+            cc = CreatorConfig({"datasets": [{"name": "d", "file_path": path, "variables": {"temp": "temp", "sal": "sal"}}]})
+            by_var = {"temp": cells, "sal": cells_sal}
+            wire = {v: [{"lat": enc(lats[i]), "lon": enc(lons[j]), "value": enc(cs[i][j])} for i in range(nlat) for j in range(nlon)]
+                    for v, cs in by_var.items()}
 
             def gen_box():
                 i0, i1 = sorted(rng.sample(range(nlat), 2)) if nlat > 1 and rng.random() < 0.8 else (0, nlat - 1)
@@ -330,12 +345,14 @@ def run_creator(out: Outcome, drv):
             starts = rng.sample(["2020-01-01", "2020-03-10", "2020-06-01", "2020-11-20"], rng.randint(1, 2))
             expr_sets = [{"suspect_min": "mean - 1", "suspect_max": "mean + 2 * 1", "fail_min": "min - ( max - min ) / 2", "fail_max": "max * 2"},
                          {"suspect_min": "min", "suspect_max": "max", "fail_min": "mean - 3 * std", "fail_max": "mean + 3 * std"}]
-            history = [(rng.choice(boxes), rng.choice(starts), expr_sets[0] if rng.random() < 0.7 else expr_sets[1])
-                       for _ in range(rng.randint(1, 5))]
+            history = [(rng.randrange(len(boxes)), rng.choice(starts), expr_sets[0] if rng.random() < 0.7 else expr_sets[1],
+                        "sal" if rng.random() < 0.35 else "temp") for _ in range(rng.randint(1, 5))]
+            box_objs = [[float(b) for b in bx] for bx in boxes]       # one list object per box for the whole history
             creator = QcConfigCreator(cc)
-            for step, (bbox, start, exprs) in enumerate(history):
-                run_creator_request(out, drv, rng, creator, cc, cells, wire_cells, bbox, start, exprs,
-                                    [{"bbox": b, "start": st_} for b, st_, _ in history[:step]])
+            for step, (bi, start, exprs, var) in enumerate(history):
+                run_creator_request(out, drv, rng, creator, cc, by_var[var], wire[var], boxes[bi], start, exprs,
+                                    [{"variable": v_, "bbox": boxes[b], "start": st_} for b, st_, _, v_ in history[:step]],
+                                    var=var, bbox_obj=box_objs[bi])
             os.remove(path)
     finally:
         shutil.rmtree(tmp, ignore_errors=True)
@@ -347,7 +364,8 @@ def run(out: Outcome, drv):
                 "invalid identifiers; every expression evaluation is one case, judged by C20.holdsEval against exact rational arithmetic; "
                 "(b) validator: token strings over a 50-token alphabet incl. Python float() oddities; (c) creator: synthetic monthly "
                 "climatologies constant in time written as netCDF3, random inclusive bounding boxes on / beside cell coordinates, "
-                "histories of 1..5 requests on ONE creator object drawn from <= 3 boxes, <= 2 periods and 2 expression sets (repeats X,Y,X). "
+                "two variables with different empty cells, histories of 1..5 requests on ONE creator object drawn from <= 3 boxes (one shared "
+                "list object per box), <= 2 periods, 2 expression sets and both variables (repeats X,Y,X; boxes empty for one variable). "
                 "All cases are counted non-trivial except one-token expressions")
     run_eval(out, drv)
     run_valid(out, drv)
